@@ -10,7 +10,11 @@ Decided (Moslem <-> civil conversion; necessary conditions of the day bijection)
       routine that handles Julian years (R-DATETIME-JULIAN);
   D1d the JD -> date blocks of the two conversions use the same constants as Epoch.get_date;
   D2  out-of-range arguments of the two conversions are refused with ValueError.
-Easter and Pesach are pure integer recipes with no structural handle: not decided."""
+  D3  Easter (Gregorian and Julian branches, switch at 1583) and Pesach are the published integer recipes
+      (Meeus ch. 8 and 9; Butcher's algorithm): the symbolically evaluated code equals the reference recipe
+      term by term (floor / mod as uninterpreted functions of canonical arguments).
+That the recipes equal the tabular Computus / arithmetic Hebrew calendar is the content of the published
+algorithms and is trusted, not decided."""
 import ast
 from fractions import Fraction
 
@@ -51,7 +55,9 @@ def term_of(repo, q):
 def run(repo, rep, tier):
     rep.decided = ["D1a year selected by the recomputed month", "D1b century correction only under a calendar test", "D1c no year skipped by the calendar split",
                    "D1d JD->date blocks share get_date's constants", "D2 argument refusals"]
-    rep.undecided = ["Easter (both calendars)", "Pesach", "month lengths 29/30 and year lengths 354/355", "bijection on days / epoch 16 July 622"]
+    rep.decided.append("D3 Easter and Pesach equal the published recipes")
+    rep.undecided = ["equivalence of the published recipes with the tabular Computus / Hebrew calendar (trusted)", "month lengths 29/30 and year lengths 354/355", "bijection on days / epoch 16 July 622"]
+    recipes(repo, rep)
     stale_param(repo, rep)
     century_ctrl(repo, rep)
     thresh_gap(repo, rep)
@@ -209,3 +215,114 @@ def refusals(repo, rep):
             rep.violation("R-RANGE-REFUSE", "Epoch." + q, "refusal:" + missing[0], "arguments with %s are not refused with ValueError" % ", ".join(missing))
         else:
             rep.ok("R-RANGE-REFUSE", "Epoch." + q, " or ".join(frags) + " -> ValueError")
+
+
+def fl(x):
+    return T.call("floor", x)
+
+
+def md(x, n):
+    return T.call("mod", x, T.num(n))
+
+
+def fr(a, b):
+    from fractions import Fraction as F_
+    return T.num(F_(a, b))
+
+
+def recipes(repo, rep):
+    from ..poly import Algebra
+    rep.rule("R-RECIPE", "integer recipe equals the published reference algorithm (term equality modulo ring algebra; floor and mod uninterpreted)")
+    alg = Algebra()
+    N = T.num
+    # ---- Easter
+    q = "Epoch.easter"
+    rep.fn(MOD, q)
+    fn = repo.func(MOD, q)
+    t = ret_term(repo, MOD, q, arg_terms={fn.args.args[0].arg: T.sym("NUM_YEAR")})
+    site = "Epoch." + q
+    X = T.call("int", T.sym("NUM_YEAR"))
+    a = md(X, 19); b = fl(T.mul(fr(1, 100), X)); c = md(X, 100); d = fl(T.mul(fr(1, 4), b)); e = md(b, 4)
+    f = fl(T.mul(fr(1, 25), T.add(b, N(8)))); g = fl(T.mul(fr(1, 3), T.add(b, T.neg(f), N(1))))
+    h = md(T.add(T.mul(N(19), a), b, T.neg(d), T.neg(g), N(15)), 30)
+    i = fl(T.mul(fr(1, 4), c)); k = md(c, 4)
+    l = md(T.add(N(32), T.mul(N(2), e), T.mul(N(2), i), T.neg(h), T.neg(k)), 7)
+    m = fl(T.mul(fr(1, 451), T.add(a, T.mul(N(11), h), T.mul(N(22), l))))
+    base = T.add(h, l, T.mul(N(-7), m), N(114))
+    greg = (fl(T.mul(fr(1, 31), base)), T.add(md(base, 31), N(1)))
+    a2 = md(X, 4); b2 = md(X, 7); c2 = md(X, 19)
+    d2 = md(T.add(T.mul(N(19), c2), N(15)), 30)
+    e2 = md(T.add(T.mul(N(2), a2), T.mul(N(4), b2), T.neg(d2), N(34)), 7)
+    base2 = T.add(d2, e2, N(114))
+    jul = (fl(T.mul(fr(1, 31), base2)), T.add(md(base2, 31), N(1)))
+    ok = False
+    detail = "result is not `Gregorian recipe if year >= 1583 else Julian recipe`"
+    if t[0] == "phi" and t[1][0] == "cmp" and t[1][2] == X and t[1][3][0] == "num":
+        thr = t[1][3][1] + (1 if t[1][1] == "Gt" else 0)
+        gb, jb = (t[2], t[3]) if t[1][1] in ("GtE", "Gt") else (t[3], t[2])
+        if thr != 1583 or t[1][1] not in ("GtE", "Gt", "Lt", "LtE"):
+            detail = "calendar switch at %s instead of 1583" % thr
+        elif gb[0] == "tuple" and jb[0] == "tuple" and len(gb) == 3 and len(jb) == 3:
+            okg = alg.equal(gb[1], greg[0]) and alg.equal(gb[2], greg[1])
+            okj = alg.equal(jb[1], jul[0]) and alg.equal(jb[2], jul[1])
+            ok = okg and okj
+            detail = "Gregorian branch %s, Julian branch %s the published recipe" % ("equals" if okg else "DIFFERS from", "equals" if okj else "DIFFERS from")
+    if ok:
+        rep.ok("R-RECIPE", site, "Butcher's Gregorian algorithm from 1583, Meeus' Julian algorithm before: (month, day) terms equal the reference", obligation=True)
+    else:
+        rep.violation("R-RECIPE", site, "easter-recipe", "Easter: " + detail, obligation=True)
+    # ---- Pesach
+    q = "Epoch.jewish_pesach"
+    rep.fn(MOD, q)
+    fn = repo.func(MOD, q)
+    t = ret_term(repo, MOD, q, arg_terms={fn.args.args[0].arg: T.sym("NUM_YEAR")})
+    site = "Epoch." + q
+    X = fl(T.sym("NUM_YEAR"))
+    C = fl(T.mul(fr(1, 100), X))
+    S_g = fl(T.mul(fr(1, 4), T.add(T.mul(N(3), C), N(-5))))
+    # collect the structural pieces from the code's term: s, a, b, q, j
+    from fractions import Fraction as F_
+    a = md(T.mul(N(12), T.add(X, N(1))), 19)
+    b = md(X, 4)
+    problems = []
+    sphis = [x for x in T.walk(t) if x[0] == "phi" and x[1][0] == "cmp" and x[1][2] == X and x[1][3][0] == "num"
+             and (x[2] == T.ZERO or x[3] == T.ZERO)]
+    if not sphis:
+        problems.append("no century term S selected by a calendar test on the year")
+    else:
+        sp = sphis[0]
+        thr = sp[1][3][1] + (1 if sp[1][1] in ("Gt", "LtE") else 0)
+        gterm = sp[3] if sp[2] == T.ZERO else sp[2]
+        if thr != 1583:
+            problems.append("S switches at %s instead of 1583" % thr)
+        if not alg.equal(gterm, S_g):
+            problems.append("Gregorian S is not INT((3C - 5)/4)")
+        S = sp
+        Q = T.add(N(F_("-1.904412361576")), T.mul(N(F_("1.554241796621")), a), T.mul(fr(1, 4), b), T.mul(N(F_("-0.003177794022")), X), S)
+        J = md(T.add(fl(Q), T.mul(N(3), X), T.mul(N(5), b), N(2), T.neg(S)), 7)
+        js = [x for x in T.walk(t) if x[0] == "call" and x[1] == "mod" and x[3] == N(7)]
+        if len(set(js)) != 1:
+            problems.append("expected one weekday term j = (...) mod 7, found %d" % len(set(js)))
+        elif not alg.equal(js[0], J):
+            # which way does S enter?
+            J_plus = md(T.add(fl(Q), T.mul(N(3), X), T.mul(N(5), b), N(2), S), 7)
+            if alg.equal(js[0], J_plus):
+                problems.append("the weekday term is j = (INT(Q) + 3X + 5b + 2 + S) mod 7; Meeus' recipe has - S (the century term must cancel the one inside Q): "
+                                "for Gregorian years the postponement rules are applied to the wrong weekday")
+            else:
+                problems.append("the weekday term j differs from (INT(Q) + 3X + 5b + 2 - S) mod 7")
+        qs = [x for x in T.walk(t) if x[0] == "call" and x[1] == "floor" and alg.equal(x[2], Q)]
+        if not qs:
+            problems.append("Q differs from -1.904412361576 + 1.554241796621 a + 0.25 b - 0.003177794022 X + S")
+        # day offsets 22 / 23 / 24 and the month split at 31
+        offs = {p_[1] for x in T.walk(t) if x[0] == "add" for p_ in x[1:] if p_[0] == "num" and p_[1] in (22, 23, 24)}
+        if offs != {F_(22), F_(23), F_(24)}:
+            problems.append("day offsets are %s, expected 22, 23 and 24" % sorted(map(int, offs)))
+        thr_r = {x[3][1] for x in T.walk(t) if x[0] == "cmp" and x[3][0] == "num" and F_("0.6") < x[3][1] < F_("0.9")}
+        if thr_r != {F_("0.632870370"), F_("0.897723765")}:
+            problems.append("postponement thresholds are %s" % sorted(map(float, thr_r)))
+    if problems:
+        for p_ in problems:
+            rep.violation("R-RECIPE", site, "pesach:" + p_[:30], "Pesach: " + p_, obligation=True)
+    else:
+        rep.ok("R-RECIPE", site, "Meeus ch. 9: C, S (Gregorian only), a, b, Q, j = (INT Q + 3X + 5b + 2 - S) mod 7, offsets 22/23/24, thresholds", obligation=True)
